@@ -36,6 +36,9 @@ var sweepPool = []string{
 	"\"[\"", "\"(\"", "\"*a\"", "\"{\"", "\"\\\\\"",
 	// texts that decode to booleans
 	"\"true\"", "\"[true, false, [true]]\"", "\"{\\\"a\\\": false, \\\"b\\\": true}\"",
+	// objects / maps whose internal lists have spare capacity or several non-scalar keys (two of each, equal in content)
+	"{id: 7, name: \"ann\", plan: \"pro\", _token: \"s\"}", "{a: 1, b: 2, c: 3, d: 4, e: 5, _x: 6, _y: 7}", "{a: 1, b: 2, c: 3, _d: 4}.bear({q: 1})",
+	"%{[0, 0]: \"o\", [0, 1]: \"n\", [1, 0]: \"e\"}", "%{[0, 0]: \"o\", [0, 1]: \"n\", [1, 0]: \"e\", 1: 2}", "%{[0, 0]: \"o\", [0, 1]: \"n\", [1, 0]: \"e\"}.bear",
 	// ranges with omitted bounds
 	"(:3)", "(:2:-1)", "(2:)", "(::2)", "(nil:3:1)", "(\"a\":)",
 }
@@ -88,7 +91,12 @@ func snapshot(env *object.Env) map[object.PanObject]string {
 				keys = append(keys, fmt.Sprintf("%d=%p", h, p.Value))
 			}
 			sort.Strings(keys)
-			seen[o] = fmt.Sprintf("obj{%s}proto=%p", strings.Join(keys, ","), v.Proto())
+			// the listed orders of public / private names are part of the value too
+			order := ""
+			if v.Keys != nil && v.PrivateKeys != nil {
+				order = fmt.Sprintf(" keys=%v private=%v", *v.Keys, *v.PrivateKeys)
+			}
+			seen[o] = fmt.Sprintf("obj{%s}proto=%p%s", strings.Join(keys, ","), v.Proto(), order)
 			if len(*v.Pairs) < 40 {
 				for _, p := range *v.Pairs {
 					walk(p.Value, depth+1)
@@ -331,9 +339,9 @@ func runSweep(c *Ctx, mode string) {
 			}
 			forced = false
 		}
-		recvs := []string{"(:3)", "(:2:-1)", "[1]", "[1, 2]", "[1, 2, 3]", "[1, 2, 3, 4, 5]", "[1, 2, 3] + [4]", "[1, 2, 3, 4, 5, 6][1:4]", "[[1], [2], [3]]", "(1:4).A",
+		recvs := []string{"%{[0, 0]: \"o\", [0, 1]: \"n\", [1, 0]: \"e\"}", "{id: 7, name: \"ann\", plan: \"pro\", _token: \"s\"}", "(:3)", "(:2:-1)", "[1]", "[1, 2]", "[1, 2, 3]", "[1, 2, 3, 4, 5]", "[1, 2, 3] + [4]", "[1, 2, 3, 4, 5, 6][1:4]", "[[1], [2], [3]]", "(1:4).A",
 			"{a: 1}", "{a: 1, b: 2, c: 3}", "%{1: 2}", "%{1: 2, [3]: 4}", "\"abc\"", "{a: 1}.bear({b: 2})", "[1, 2, 3].bear", "Arr.bear.new([1, 2, 3])"}
-		args := []string{"[101]", "[102]", "[103, 104]", "{q: 1}", "{r: 2}", "%{9: 9}", "%{8: 8}", "1", "2", "\"x\"", "\"y\"", "[]", "nil"}
+		args := []string{"%{[0, 0]: \"o\", [0, 1]: \"n\", [1, 0]: \"e\"}", "%{[0, 0]: \"o\", [1, 0]: \"e\", [0, 1]: \"n\"}", "[101]", "[102]", "[103, 104]", "{q: 1}", "{r: 2}", "%{9: 9}", "%{8: 8}", "1", "2", "\"x\"", "\"y\"", "[]", "nil"}
 		for ri, rs := range recvs {
 			if o := c.It.RunIn(env, fmt.Sprintf("a%d := %s", ri, rs), "", defaultFuel); o.Kind != "val" {
 				continue
